@@ -1,18 +1,22 @@
 import Qryn.Proofs.LogQLMetric
 import Qryn.Proofs.MetricUnwrap
+import Qryn.Proofs.MetricXCorollaries
+import Qryn.Proofs.MetricOrder
 /-! # C08 — the SQL generated for LogQL metric queries computes the defined aggregates
 
 Model: `LogQL.planMetric` (tied byte-for-byte to the real planner's SQL text by the `text` stream, its step
 list to the real planner chain by the `chain` stream), `Sql.evalSelA`/`evalBodyA`/`evalAgg` (semantics of the
 aggregating SQL subset — a documented model of ClickHouse), `LogQL.evalMetric` (the direct reading, no SQL),
-`LogQL.postProcess`/`fixWindow` (the Go post-processors, tied by the `post` stream). The whole-plan equality
-`evalSelA (planMetric c q) = evalMetric c q` is *searched* (the `sem` stream evaluates both sides on generated
-databases); the theorems below prove it stage by stage: for every stage the SELECT the planner emits, over
-arbitrary input rows, computes what the direct reading defines.
+`LogQL.postProcess`/`fixWindow` (the Go post-processors, tied by the `post` stream); `LogQL.planMetricX` /
+`LogQL.evalMetricX` for the labelled path (selectors with `| json` / `| regexp` / `| drop`, `quantile_over_time`; `textx`,
+`semx` streams). The whole-plan equality is PROVED for three decidable classes (`plan_metric_correct`,
+`plan_metric_correct_unwrap`, `plan_metric_correct_ext`; section "the whole plan" and after); the first sections prove it
+stage by stage: for every stage the SELECT the planner emits, over arbitrary input rows, computes what the direct reading
+defines. The semantic streams label every generated case with the class predicates of these theorems.
 
 Numbers: Float64 values are exact rationals (`Rat`), UInt64/Int64 values integers; no theorem depends on IEEE
-rounding. Range durations are whole milliseconds (`1000000 ∣ d`, the divisor literal is printed from
-`Duration.Milliseconds()`), timestamps non-negative. -/
+rounding. Range durations are positive (any unit: since the `fix:` of the rate divisor nothing depends on whole
+milliseconds), timestamps non-negative. -/
 namespace Qryn.C08
 open Qryn Qryn.Sql Qryn.LogQL
 
@@ -73,14 +77,41 @@ theorem range_one_point_per_bucket (o : Oracles) (db : Db) (env : Env) (fn : Ran
     the value column `LRAPlanner` writes equals the range function of the direct reading on the entries of that
     group: count / seconds, count, bytes / seconds, bytes. -/
 theorem range_fn_lra (o : Oracles) (env : Env) (rows : List Row) (first : Row) (grp : List Sample) (fn : RangeFn)
-    (d : Nat) (h : LraRows rows grp) (hms : 1000000 ∣ d) (hd : 0 < d) :
-    evalAgg o env rows first (.col (lraValue fn (secLit d)) "value") = .rat (lraVal fn d grp) :=
-  LogQL.range_fn_lra o env rows first grp fn d h hms hd
+    (d : Nat) (h : LraRows rows grp) (hd : 0 < d) :
+    evalAgg o env rows first (.col (lraValue fn (.int d)) "value") = .rat (lraVal fn d grp) :=
+  LogQL.range_fn_lra o env rows first grp fn d h hd
 
 theorem range_fn_rate (grp : List Sample) (d : Nat) : lraVal .rate d grp = (grp.length : Int) / secondsOf d := rfl
 theorem range_fn_count_over_time (grp : List Sample) (d : Nat) : lraVal .countOverTime d grp = (grp.length : Int) := rfl
 theorem range_fn_bytes_rate (grp : List Sample) (d : Nat) :
     lraVal .bytesRate d grp = ((grp.map (fun s => (s.str.length : Int))).foldl (· + ·) 0 : Int) / secondsOf d := rfl
+/-! ### the rate divisor (`fix:` of the truncated `Milliseconds()/1000`)
+    `rate`, `bytes_rate` and the unwrapped `rate` now write `x * 1000000000 / <range in ns>`: `range_fn_lra` /
+    `range_fn_unwrap` hold for every positive range, whatever its unit. What the unfixed code wrote is characterised
+    here: the literal `float64(d.Milliseconds())/1000` (printed by `%f`) denotes `truncatedSeconds d`. -/
+
+/-- the number the unfixed divisor literal denoted: whole milliseconds of the range, over 1000 -/
+def truncatedSeconds (durNs : Nat) : Rat := secOfMs (durNs / 1000000)
+
+/-- it was the range in seconds for ranges that are whole milliseconds … -/
+theorem truncated_divisor_whole_ms (d : Nat) (h : 1000000 ∣ d) : truncatedSeconds d = secondsOf d :=
+  secOfMs_eq_secondsOf d h
+
+/-- … zero for every range below one millisecond (`rate({…}[500us])` divided by `0.000000`: no number at all) … -/
+theorem truncated_divisor_sub_ms_zero (d : Nat) (h : d < 1000000) : truncatedSeconds d = 0 := by
+  unfold truncatedSeconds secOfMs
+  rw [Nat.div_eq_of_lt h]
+  decide +kernel
+
+/-- … and too small otherwise: `[1500us]` was divided by 0.001 instead of 0.0015 (the rate came out 1.5 times too high) -/
+theorem truncated_divisor_counterexample :
+    truncatedSeconds 1500000 = 1 / 1000 ∧ secondsOf 1500000 = 15 / 10000 ∧ truncatedSeconds 1500000 ≠ secondsOf 1500000 := by
+  decide +kernel
+
+/-- the fixed expression: `x * 1000000000 / d` is `x` per second of a range of `d` ns, for every `d` (no unit condition) -/
+theorem per_second_any_unit (x : Rat) (d : Nat) : x * 1000000000 / ((d : Int) : Rat) = x / secondsOf d :=
+  perSecond_rat x d
+
 /-- after the fix of A17: the byte count itself, not divided by the range -/
 theorem range_fn_bytes_over_time (grp : List Sample) (d : Nat) :
     lraVal .bytesOverTime d grp = ((grp.map (fun s => (s.str.length : Int))).foldl (· + ·) 0 : Int) := rfl
@@ -89,39 +120,46 @@ theorem range_fn_bytes_over_time (grp : List Sample) (d : Nat) :
     group of `unwrap_1`, the value column `UnwrapFunctionPlanner` writes equals the range function of the direct
     reading on the (timestamp, value) pairs of that group. -/
 theorem range_fn_unwrap (o : Oracles) (env : Env) (rows : List Row) (first : Row) (grp : List (Int × Rat))
-    (fn : UnwrapFn) (d : Nat) (h : UnwrapRows rows grp) (hne : grp ≠ []) (hms : 1000000 ∣ d) (hd : 0 < d)
-    (hfn : fn ≠ .stdvarOT ∧ fn ≠ .stddevOT) :
-    evalAgg o env rows first (.col (unwrapValue fn (secLit d)) "value") = ((unwrapVal fn d grp).map Val.rat).getD .null :=
-  LogQL.range_fn_unwrap o env rows first grp fn d h hne hms hd hfn
+    (fn : UnwrapFn) (d : Nat) (h : UnwrapRows rows grp) (hne : grp ≠ []) (hd : 0 < d) :
+    evalAgg o env rows first (.col (unwrapValue fn (.int d)) "value") = ((unwrapVal o fn d grp).map Val.rat).getD .null :=
+  LogQL.range_fn_unwrap o env rows first grp fn d h hne hd
 
-theorem range_fn_sum_over_time (grp : List (Int × Rat)) (p : Int × Rat) (d : Nat) :
-    unwrapVal .sumOT d (p :: grp) = some (ratSumL ((p :: grp).map (·.2))) := rfl
-theorem range_fn_avg_over_time (grp : List (Int × Rat)) (p : Int × Rat) (d : Nat) :
-    unwrapVal .avgOT d (p :: grp) = some (ratSumL ((p :: grp).map (·.2)) / (((p :: grp).map (·.2)).length : Int)) := rfl
-theorem range_fn_unwrapped_rate (grp : List (Int × Rat)) (p : Int × Rat) (d : Nat) :
-    unwrapVal .rate d (p :: grp) = some (ratSumL ((p :: grp).map (·.2)) / secondsOf d) := rfl
+/-- `stdvar_over_time` is the population variance of the group's values (the mean of the squared deviations from the
+    mean: exact rational arithmetic), `stddev_over_time` the square root of it — `o.sqrt`, the one uninterpreted function
+    `Sql.SemAgg` uses for `stddevPop` as well (a square root is not a rational function; nothing is assumed of it). -/
+theorem range_fn_stdvar_over_time (o : Oracles) (grp : List (Int × Rat)) (p : Int × Rat) (d : Nat) :
+    unwrapVal o .stdvarOT d (p :: grp) = some (varPopRat ((p :: grp).map (·.2))) := rfl
+theorem range_fn_stddev_over_time (o : Oracles) (grp : List (Int × Rat)) (p : Int × Rat) (d : Nat) :
+    unwrapVal o .stddevOT d (p :: grp) = some (o.sqrt (varPopRat ((p :: grp).map (·.2)))) := rfl
+
+theorem range_fn_sum_over_time (o : Oracles) (grp : List (Int × Rat)) (p : Int × Rat) (d : Nat) :
+    unwrapVal o .sumOT d (p :: grp) = some (ratSumL ((p :: grp).map (·.2))) := rfl
+theorem range_fn_avg_over_time (o : Oracles) (grp : List (Int × Rat)) (p : Int × Rat) (d : Nat) :
+    unwrapVal o .avgOT d (p :: grp) = some (ratSumL ((p :: grp).map (·.2)) / (((p :: grp).map (·.2)).length : Int)) := rfl
+theorem range_fn_unwrapped_rate (o : Oracles) (grp : List (Int × Rat)) (p : Int × Rat) (d : Nat) :
+    unwrapVal o .rate d (p :: grp) = some (ratSumL ((p :: grp).map (·.2)) / secondsOf d) := rfl
 
 /-- `min_over_time` is a value of the group and no value of the group is smaller (no min/max swap) -/
-theorem range_fn_min_over_time (grp : List (Int × Rat)) (p : Int × Rat) (d : Nat) :
-    ∃ m, unwrapVal .minOT d (p :: grp) = some m ∧ m ∈ (p :: grp).map (·.2) ∧ ∀ x ∈ (p :: grp).map (·.2), m ≤ x := by
+theorem range_fn_min_over_time (o : Oracles) (grp : List (Int × Rat)) (p : Int × Rat) (d : Nat) :
+    ∃ m, unwrapVal o .minOT d (p :: grp) = some m ∧ m ∈ (p :: grp).map (·.2) ∧ ∀ x ∈ (p :: grp).map (·.2), m ≤ x := by
   refine ⟨_, rfl, ?_⟩
   simpa using foldl_min_spec p.2 (grp.map (·.2))
 
 /-- `max_over_time` is a value of the group and no value of the group is greater -/
-theorem range_fn_max_over_time (grp : List (Int × Rat)) (p : Int × Rat) (d : Nat) :
-    ∃ m, unwrapVal .maxOT d (p :: grp) = some m ∧ m ∈ (p :: grp).map (·.2) ∧ ∀ x ∈ (p :: grp).map (·.2), x ≤ m := by
+theorem range_fn_max_over_time (o : Oracles) (grp : List (Int × Rat)) (p : Int × Rat) (d : Nat) :
+    ∃ m, unwrapVal o .maxOT d (p :: grp) = some m ∧ m ∈ (p :: grp).map (·.2) ∧ ∀ x ∈ (p :: grp).map (·.2), x ≤ m := by
   refine ⟨_, rfl, ?_⟩
   simpa using foldl_max_spec p.2 (grp.map (·.2))
 
 /-- `first_over_time` is the value of an entry of the group whose timestamp no entry of the group precedes -/
-theorem range_fn_first_over_time (grp : List (Int × Rat)) (d : Nat) (v : Rat) (h : unwrapVal .firstOT d grp = some v) :
+theorem range_fn_first_over_time (o : Oracles) (grp : List (Int × Rat)) (d : Nat) (v : Rat) (h : unwrapVal o .firstOT d grp = some v) :
     ∃ t, (t, v) ∈ grp ∧ ∀ p ∈ grp, t ≤ p.1 := by
   cases grp with
   | nil => simp [unwrapVal] at h
   | cons p ps => exact firstBy_spec (p :: ps) v (by simpa [unwrapVal] using h)
 
 /-- `last_over_time` is the value of an entry of the group whose timestamp no entry of the group follows -/
-theorem range_fn_last_over_time (grp : List (Int × Rat)) (d : Nat) (v : Rat) (h : unwrapVal .lastOT d grp = some v) :
+theorem range_fn_last_over_time (o : Oracles) (grp : List (Int × Rat)) (d : Nat) (v : Rat) (h : unwrapVal o .lastOT d grp = some v) :
     ∃ t, (t, v) ∈ grp ∧ ∀ p ∈ grp, p.1 ≤ t := by
   cases grp with
   | nil => simp [unwrapVal] at h
@@ -129,12 +167,17 @@ theorem range_fn_last_over_time (grp : List (Int × Rat)) (d : Nat) (v : Rat) (h
 
 /-! ## vector aggregation, by / without -/
 
-/-- **vector_agg (sum, min, max, avg, count).** Over the rows of one group of `lra_main`, the value column
+/-- **vector_agg (sum, min, max, avg, count, stdvar, stddev).** Over the rows of one group of `lra_main`, the value column
     `AggOpPlanner` writes, read as a number, equals the aggregate of the direct reading over the group's values. -/
 theorem vector_agg (o : Oracles) (env : Env) (rows : List Row) (first : Row) (vs : List Rat) (fn : AggFn)
-    (h : AggRows rows vs) (hne : vs ≠ []) (hfn : fn ≠ .stddev ∧ fn ≠ .stdvar) :
-    (evalAgg o env rows first (.col (aggValue fn) "value")).toRat? = aggVal fn vs :=
-  vector_agg_value o env rows first vs fn h hne hfn
+    (h : AggRows rows vs) (hne : vs ≠ []) :
+    (evalAgg o env rows first (.col (aggValue fn) "value")).toRat? = aggVal o fn vs :=
+  vector_agg_value o env rows first vs fn h hne
+
+/-- `stdvar` = population variance of the group's values, `stddev` = `o.sqrt` of it -/
+theorem vector_agg_stdvar (o : Oracles) (v : Rat) (vs : List Rat) : aggVal o .stdvar (v :: vs) = some (varPopRat (v :: vs)) := rfl
+theorem vector_agg_stddev (o : Oracles) (v : Rat) (vs : List Rat) :
+    aggVal o .stddev (v :: vs) = some (o.sqrt (varPopRat (v :: vs))) := rfl
 
 /-- one output series per (grouped identity, timestamp): `AggOpPlanner`'s SELECT returns exactly one row for every
     distinct (fingerprint, timestamp) of its input. -/
@@ -173,20 +216,6 @@ theorem output_series_identified_by_grouped_labels (o : Oracles) (g : Grouping) 
     (hinj : o.cityHash (keptLabels g m1) = o.cityHash (keptLabels g m2) → keptLabels g m1 = keptLabels g m2) :
     o.cityHash (keptLabels g m1) = o.cityHash (keptLabels g m2) ↔ keptLabels g m1 = keptLabels g m2 :=
   grouped_identity o g m1 m2 hinj
-
-/-- **finding C08/agg-without-grouping-keeps-streams.** The full statement — a vector aggregation written without
-    `by`/`without` merges all series of a timestamp into one — is `vector_agg_ungrouped_full`. It does not hold:
-    `AggOpPlanner` then groups by the stream fingerprint, so two streams stay two series. -/
-theorem vector_agg_ungrouped_counterexample : ¬ vector_agg_ungrouped_full :=
-  LogQL.vector_agg_ungrouped_counterexample
-
-/-- what holds instead (partial): whatever the grouping, one output row per distinct (fingerprint, timestamp) of the
-    input — with a grouping clause the fingerprint is the recomputed one (`grouping_fingerprint_recomputed`), so
-    series merge exactly by kept label set; without one it is the stream's. -/
-theorem vector_agg_ungrouped_partial (o : Oracles) (db : Db) (env : Env) (fn : AggFn) (main : Sel) (T : Table) :
-    (evalBodyA o db ((.named "lra_main", T) :: env) (aggSel fn false main)).length =
-      ((T.map (qualify "lra_main")).map aggKey).eraseDups.length :=
-  aggSel_groups o db env fn false main T
 
 /-! ## comparison, top/bottom-k -/
 
@@ -310,6 +339,15 @@ theorem gen_unwrap_ops : unwrapOpsModel = Gen.LogQLOps.unwrapOps := unwrapOps_eq
 theorem gen_agg_ops : aggOpsModel = Gen.LogQLOps.aggOps := aggOps_eq
 theorem gen_shortcut_ops : shortcutOpsModel = Gen.LogQLOps.shortcutOps := shortcutOps_eq
 theorem gen_cmp_ops : cmpOpsModel = Gen.LogQLOps.cmpOps := cmpOps_eq
+/-- planner_quantile.go: every text `QuantilePlanner.Process` writes is the model's (`quantCols`), the range goes into the bucket
+    column and the parsed parameter into `quantile(%f)`, and `planQuantileOverTime` wires `Param` to the script's parameter and
+    `Duration` to the script's range -/
+theorem gen_quantile_ops :
+    quantileTextsModel = Gen.QuantileOps.texts ∧
+    Gen.QuantileOps.fmtArgs = [("intDiv(quant_a.timestamp_ns, %d) * %[1]d", "p.Duration.Nanoseconds()"), ("quantile(%f)(value)", "p.Param")] ∧
+    Gen.QuantileOps.wiring = [("Main", "p.samplesPlanner"), ("Param", "strconv.ParseFloat(script.Param, 64)"),
+      ("Duration", "time.ParseDuration(script.Time + script.TimeUnit)")] :=
+  ⟨quantileTexts_eq, quantileArgs_eq.1, quantileArgs_eq.2⟩
 
 /-! ## the whole plan -/
 
@@ -321,10 +359,10 @@ theorem gen_cmp_ops : cmpOpsModel = Gen.LogQLOps.cmpOps := cmpOps_eq
     range bucket containing a matching entry of `[from, to)`), valued by the range function over exactly those
     entries, filtered by the comparison, labelled with the stream's labels, ordered by (fingerprint, timestamp). -/
 theorem plan_metric_correct_range (o : Oracles) (c : MCtx) (hn : c.namesOk) (d : LokiDb) (r : RangeAgg) (fn : RangeFn)
-    (hk : r.kind = .lra fn) (hm : r.sel.matchers.length ≤ 63) (hms : 1000000 ∣ r.durNs) (hd : 0 < r.durNs)
+    (hk : r.kind = .lra fn) (hm : r.sel.matchers.length ≤ 63) (hd : 0 < r.durNs)
     (hs : takesShortcut (.range r) = false) (hstep : c.stepNs ≤ (r.durNs : Int)) :
     (evalSelA o (d.toDbM c) (planMetric c (.range r))).map normRow = evalMetric o c d (.range r) :=
-  planMetric_range_lra o c hn d r fn hk hm hms hd hs hstep
+  planMetric_range_lra o c hn d r fn hk hm hd hs hstep
 
 /-- **plan_metric_correct, class `aggOp by/without (…) (rangeFn({selector} [d]) [cmp]) [cmp]`** — sum, min, max, avg,
     count with a grouping clause (prefix or suffix position) over a range aggregation of the class above. The
@@ -333,26 +371,24 @@ theorem plan_metric_correct_range (o : Oracles) (c : MCtx) (hn : c.namesOk) (d :
     direct reading's: every range point moved to the series of its kept label set, the points of one (series,
     timestamp) aggregated by the written operator, both comparisons applied where written. -/
 theorem plan_metric_correct_agg (o : Oracles) (c : MCtx) (hn : c.namesOk) (d : LokiDb) (a : VecAgg) (fn : RangeFn)
-    (g : Grouping) (hk : a.inner.kind = .lra fn) (hg : chosenGrouping a.byPrefix a.bySuffix = some g)
-    (hfn : a.fn ≠ .stddev ∧ a.fn ≠ .stdvar)
-    (hm : a.inner.sel.matchers.length ≤ 63) (hms : 1000000 ∣ a.inner.durNs) (hd : 0 < a.inner.durNs)
+    (hk : a.inner.kind = .lra fn)
+    (hm : a.inner.sel.matchers.length ≤ 63) (hd : 0 < a.inner.durNs)
     (hs : takesShortcut (.agg a) = false) (hstep : c.stepNs ≤ (a.inner.durNs : Int)) :
     (evalSelA o (d.toDbM c) (planMetric c (.agg a))).map normRow = evalMetric o c d (.agg a) :=
-  planMetric_agg_lra o c hn d a fn g hk hg hfn hm hms hd hs hstep
+  planMetric_agg_lra o c hn d a fn hk hm hd hs hstep
 
 /-- **plan_metric_correct on the samples path, every query shape.** `q` is any metric query whose range aggregation is
     rate / count_over_time / bytes_rate / bytes_over_time and does not take the metrics_15s shortcut: the range
-    aggregation alone, under sum/min/max/avg/count with a grouping clause, under topk/bottomk (of either), with a
-    comparison after any of them; the step may be smaller or larger than the range (`StepFixPlanner` planned or not).
-    Hypotheses: at most 63 matchers, the range a positive whole number of milliseconds, a vector aggregation has a
-    grouping clause (`aggOk`; without one the plan keeps one series per stream — finding
-    C08/agg-without-grouping-keeps-streams) and is not stddev/stdvar. Then the generated statement, under the
-    documented SQL semantics, returns exactly the matrix of the direct reading. -/
+    aggregation alone, under sum/min/max/avg/count/stddev/stdvar with or without a grouping clause, under topk/bottomk (of
+    either), with a comparison after any of them; the step may be smaller or larger than the range (`StepFixPlanner` planned
+    or not). Hypotheses: at most 63 matchers, the range positive (`aggOk` is `True` since the `fix:` of ungrouped
+    aggregations; kept in the signature). Then the generated statement, under the documented SQL semantics, returns exactly
+    the matrix of the direct reading. -/
 theorem plan_metric_correct_samples_path (o : Oracles) (c : MCtx) (hn : c.namesOk) (d : LokiDb) (q : MetricQuery) (fn : RangeFn)
     (hk : q.rangeAgg.kind = .lra fn) (hs : takesShortcut q = false) (hok : aggOk q)
-    (hm : q.rangeAgg.sel.matchers.length ≤ 63) (hms : 1000000 ∣ q.rangeAgg.durNs) (hd : 0 < q.rangeAgg.durNs) :
+    (hm : q.rangeAgg.sel.matchers.length ≤ 63) (hd : 0 < q.rangeAgg.durNs) :
     (evalSelA o (d.toDbM c) (planMetric c q)).map normRow = evalMetric o c d q :=
-  planMetric_lra o c hn d q fn hk hs hok hm hms hd
+  planMetric_lra o c hn d q fn hk hs hok hm hd
 
 /-- **plan_metric_correct on the metrics_15s path, every query shape.** `q` takes the shortcut (`shortcut_iff`: rate or
     count_over_time, range a multiple of 15 s, only line filters that pass every line). Hypotheses besides those of the
@@ -362,11 +398,11 @@ theorem plan_metric_correct_samples_path (o : Oracles) (c : MCtx) (hn : c.namesO
     exactly the matrix of the direct reading over the entries of the window rounded down to whole slots. -/
 theorem plan_metric_correct_shortcut (o : Oracles) (c : MCtx) (hn : c.namesOk) (d : LokiDb) (q : MetricQuery)
     (hs : takesShortcut q = true) (hok : aggOk q)
-    (hm : q.rangeAgg.sel.matchers.length ≤ 63) (hms : 1000000 ∣ q.rangeAgg.durNs)
+    (hm : q.rangeAgg.sel.matchers.length ≤ 63)
     (hts : ∀ s ∈ d.samples, 0 ≤ s.ts)
     (htriv : ∀ s ∈ d.samples, (lineFilters q.rangeAgg.sel).all (fun f => lineHolds o f s.str) = true) :
     (evalSelA o (d.toDbM c) (planMetric c q)).map normRow = evalMetric o c d q :=
-  planMetric_shortcut o c hn d q hs hok hm hms hts htriv
+  planMetric_shortcut o c hn d q hs hok hm hts htriv
 
 /-- `plan()` is the composition of its phases, `planPhases (takesShortcut q) c q`: `planPhases true` is the plan of
     `planMetrics15Shortcut`, `planPhases false` the plan of the matrix functions in `getFunctionOrder`. -/
@@ -379,17 +415,17 @@ theorem plan_is_phases (c : MCtx) (q : MetricQuery) : planMetric c q = planPhase
     would build for the same query (reading `samples`, every stage planned) return the same matrix. -/
 theorem shortcut_equals_function_plan (o : Oracles) (c : MCtx) (hn : c.namesOk) (d : LokiDb) (q : MetricQuery)
     (hs : takesShortcut q = true) (hok : aggOk q)
-    (hm : q.rangeAgg.sel.matchers.length ≤ 63) (hms : 1000000 ∣ q.rangeAgg.durNs)
+    (hm : q.rangeAgg.sel.matchers.length ≤ 63)
     (hts : ∀ s ∈ d.samples, 0 ≤ s.ts)
     (htriv : ∀ s ∈ d.samples, (lineFilters q.rangeAgg.sel).all (fun f => lineHolds o f s.str) = true)
     (hfrom : Int.tdiv c.fromNs slot15 * slot15 = c.fromNs) (hto : Int.tdiv c.toNs slot15 * slot15 = c.toNs) :
     (evalSelA o (d.toDbM c) (planPhases true c q)).map normRow =
       (evalSelA o (d.toDbM c) (planPhases false c q)).map normRow :=
-  shortcut_plan_eq_function_plan o c hn d q hs hok hm hms hts htriv hfrom hto
+  shortcut_plan_eq_function_plan o c hn d q hs hok hm hts htriv hfrom hto
 
 /-- **plan_metric_correct** (the union of the classes above, over the decidable predicate `supported`). For every
     supported metric query — range aggregation rate / count_over_time / bytes_rate / bytes_over_time over a selector of
-    the C07 fragment with a range that is a positive whole number of milliseconds and at most 63 matchers; alone, under
+    the C07 fragment with a positive range (any unit) and at most 63 matchers; alone, under
     sum/min/max/avg/count `by`/`without`, under topk/bottomk, comparisons anywhere — every context (window, step <, =,
     > range, signal type, table names) and every database:
     `evalSelA (planMetric c q)`, value column read as a number, `=` `evalMetric c q`.
@@ -422,14 +458,14 @@ theorem plan_metric_correct_unwrap_sorted (o : Oracles) (c : MCtx) (hn : c.names
     (evalSelA o (d.toDbM c) (planMetric c q)).map normRow = evalMetric o c d q := by
   rw [planMetric_unwrap_supported o c hn d q hsup, sortedDb_of_sorted c.toCtx d hsorted]
 
-/-- the full statement of the property for *every* query of the modelled fragment and every table order (also
-    vector aggregations without grouping clause, and unwrapped range aggregations over a table that is not stored in
-    timestamp order). Not proved: `vector_agg_ungrouped_counterexample` refutes it for ungrouped aggregations (finding
-    C08/agg-without-grouping-keeps-streams); for unwrap it holds only after the final ORDER BY and for pairwise distinct
-    timestamps — `plan_metric_correct_unwrap` is the proved form, the `sem` stream searches this one. -/
+/-- the full statement of the property for *every* query of the plain fragment and every table order (also unwrapped range
+    aggregations over a table that is not stored in timestamp order). Not proved in this form: for unwrap the two sides
+    agree after the final ORDER BY when no two entries share a timestamp (`plan_metric_unwrap_any_row_order` is the proved
+    order-independence, `plan_metric_correct_unwrap` the proved equality); with timestamp ties first/last_over_time follow
+    the row order (`first_last_any_order_counterexample`, finding C08/first-last-tie-follows-row-order). -/
 def plan_metric_correct_full : Prop :=
   ∀ (o : Oracles) (c : MCtx) (d : LokiDb) (q : MetricQuery), c.namesOk → q.rangeAgg.sel.matchers.length ≤ 63 →
-    1000000 ∣ q.rangeAgg.durNs → 0 < q.rangeAgg.durNs → ShortcutOk o d q →
+    0 < q.rangeAgg.durNs → ShortcutOk o d q →
     (evalSelA o (d.toDbM c) (planMetric c q)).map normRow = evalMetric o c d q
 
 /-- **no entry outside the window (widened at most to whole range buckets) contributes.** Changing, adding or removing
@@ -451,7 +487,127 @@ theorem output_series_identified_by_grouped_labels_plan (o : Oracles) (c : MCtx)
     (hsc : takesShortcut q = true → ShortcutOk o d q)
     (ha : q.agg? = some a) (hg : chosenGrouping a.byPrefix a.bySuffix = some g) :
     ∀ r ∈ evalSelA o (d.toDbM c) (planMetric c q), GroupedKL o g (r.get "fingerprint") (r.get "labels") :=
-  output_series_grouped o c hn d q a g hsup hsc ha hg
+  output_series_grouped o c hn d q a g hsup hsc ha (aggGrouping_of_some a g hg)
+
+/-- **vector_agg_ungrouped** (full strength, after the `fix:` 8ee6041 of C08/agg-without-grouping-keeps-streams). A vector
+    aggregation written without `by`/`without` (`sum(rate({…}[5s]))`) aggregates all series of a timestamp into ONE series,
+    the one of the empty label set: every row the statement returns carries the labels `{}` and the fingerprint
+    `cityHash64({})` (for a database in which a selected stream has no series row the join default `null` appears instead:
+    limit of the SQL model). `planAgg` plans the grouping of the empty label list (`by ()`:
+    `mapFilter((k,v) -> 0, labels)`), so `AggOpPlanner` groups by that one fingerprint and the timestamp. -/
+theorem vector_agg_ungrouped (o : Oracles) (c : MCtx) (hn : c.namesOk) (d : LokiDb) (q : MetricQuery) (a : VecAgg)
+    (hsup : supported q = true) (hsc : takesShortcut q = true → ShortcutOk o d q)
+    (ha : q.agg? = some a) (hnone : chosenGrouping a.byPrefix a.bySuffix = none) :
+    ∀ r ∈ evalSelA o (d.toDbM c) (planMetric c q),
+      (r.get "labels" = .map [] ∧ r.get "fingerprint" = .int (o.cityHash [])) ∨
+      (r.get "fingerprint" = .null ∧ r.get "labels" = .null) :=
+  ungrouped_one_series o c hn d q a hsup hsc ha hnone
+
+/-! ## the labelled path: selectors with `| json` / `| regexp` / `| drop`, and `quantile_over_time` -/
+
+/-- **plan_metric_correct_ext** (class `supportedX`, a decidable predicate). Metric queries whose selector carries SQL-side
+    pipeline stages after the stream selector — `| json l="path", …`, `| regexp "…"`, `| drop a, b="v"`, label filters on
+    stored *or extracted* labels and line filters after them, in any order and number (C07's extended fragment) — under
+    rate / count_over_time / bytes_rate / bytes_over_time, or ending in `| unwrap x` under rate / sum / avg / min / max /
+    first / last / stdvar / stddev_over_time, or `quantile_over_time(φ, … | unwrap x [d])` with or without such stages;
+    a grouping clause on an unwrapped / quantile range aggregation; alone, under a grouped vector aggregation
+    (sum/min/max/avg/count/stddev/stdvar), under topk/bottomk; comparisons anywhere; any step; any positive range;
+    ≤ 63 matchers. For every such query, every context and every database:
+    `evalSelA (planMetricX c q)`, value column read as a number, `=` `evalMetricX c q` — the entries the selector AND
+    every written pipeline stage let through (C07's `stagesX` over `entriesAtJoin`: each entry with its own stream's
+    labels as rewritten by the json / regexp / drop stages up to that point, in the series of its rewritten label set),
+    bucketed by series and range window, the range function applied to exactly those entries, then the aggregation over
+    the kept label sets, comparison thresholds, top/bottom-k, step re-bucketing. The entries are read in timestamp order
+    (`main` is ordered by timestamp before the labels join), so first/last_over_time among entries of equal timestamp,
+    `any(labels)` and the order of first occurrence are those of that order on both sides.
+    `quantile(φ)(x)`: `Sql.SemAgg` and the direct reading apply the same uninterpreted `Oracles.quantile φ` to the values of
+    the group in row order; nothing is assumed of ClickHouse's algorithm (reservoir sampling, interpolation). What the
+    theorem does say of `QuantilePlanner`: its groups are exactly the (series, range bucket) groups of the entries the
+    pipeline lets through, φ is the written parameter, the labels are the series', the window is `[from, to)`.
+    This composes C07's `plan_correct_ext` construction (re-proved for `Sql.SemAgg`: `Proofs/MetricXRuns`) with the range
+    and vector stages; the statement is tied to the real planner byte for byte by the `textx` stream. -/
+theorem plan_metric_correct_ext (o : Oracles) (c : MCtx) (hn : c.namesOk) (d : LokiDb) (q : MetricQueryX)
+    (hsup : supportedX q = true) :
+    (evalSelA o (d.toDbM c) (planMetricX c q)).map normRow = evalMetricX o c d q :=
+  planMetricX_correct o c hn d q hsup
+
+/-- **`QuantilePlanner`, stage level** (no hypothesis on the query): over any table of entry points bound to `quant_a`, the
+    SELECT returns one row per (series, range bucket) in order of first occurrence, valued `quantile φ` of exactly the
+    group's values in row order — φ the number the written parameter denotes — with the labels of the group's first member,
+    then the optional HAVING. Independent of what `quantile` computes. -/
+theorem quantile_stage (o : Oracles) (db : Db) (env : Env) (phi : NumLit) (d : Nat) (hd : 0 < d) (T : Table) (pts : List Pt)
+    (h : Rep T pts) (hT : env.lookup (.named "quant_a") = some T) (cm : Option Comparison) :
+    Rep (evalBodyA o db env (quantBody phi d (cmpHaving cm))) (cmpStage cm (rangeCore (quantileVal o phi) d pts)) :=
+  quant_eval o db env phi d hd T pts h hT cm
+
+/-- φ is passed through unchanged: the literal `QuantilePlanner` writes denotes the number the query's parameter denotes
+    (parameters of at most six decimals; `%f` keeps six) -/
+theorem quantile_param_passthrough (phi : NumLit) :
+    ∃ u s, quantileCol phi = .quantileAgg u s "value" ∧ ((u : Int) : Rat) / (((10 ^ s : Nat) : Int) : Rat) = numOf phi :=
+  ⟨_, _, rfl, rfl⟩
+
+/-- **no entry outside the window contributes** (labelled path): entries outside `[from, to)` may be changed, added or
+    removed without changing a row of the result -/
+theorem no_entry_outside_window_contributes_ext (o : Oracles) (c : MCtx) (hn : c.namesOk) (d d' : LokiDb) (q : MetricQueryX)
+    (hsup : supportedX q = true) (h : SameInside d d' c.fromNs c.toNs) :
+    (evalSelA o (d.toDbM c) (planMetricX c q)).map normRow = (evalSelA o (d'.toDbM c) (planMetricX c q)).map normRow :=
+  outside_window_irrelevantX o c hn d d' q hsup h
+
+/-- **output series are identified by exactly the grouped label set** (labelled path): every row returned for
+    `aggOp [by/without g] (…)` has as labels exactly what the grouping (`a.grouping`: the written one, `by ()` when none is
+    written) keeps of a (rewritten) label set and as fingerprint cityHash64 of exactly those -/
+theorem output_series_identified_by_grouped_labels_ext (o : Oracles) (c : MCtx) (hn : c.namesOk) (d : LokiDb)
+    (q : MetricQueryX) (a : VecOp) (hsup : supportedX q = true) (ha : q.agg = some a) :
+    ∀ r ∈ evalSelA o (d.toDbM c) (planMetricX c q), GroupedKL o a.grouping (r.get "fingerprint") (r.get "labels") :=
+  output_series_groupedX o c hn d q a a.grouping hsup ha rfl
+
+/-- **every pipeline stage written in the query takes effect**: the direct reading the statement is proved equal to is a
+    function of the entries `stagesX post (entriesAtJoin …)` — every stage of `post` applied in order — and of nothing else
+    of the samples table -/
+theorem ext_stages_take_effect (o : Oracles) (c : Ctx) (d : LokiDb) (r : RangeAggX) :
+    entriesX o c d r = stagesX o r.post (entriesAtJoin o c d r.sel) := rfl
+
+/-! ## the physical order of the samples table (first/last_over_time) -/
+
+/-- **no storage-order hypothesis is needed when timestamps are distinct.** For a supported unwrapped range aggregation
+    (first/last_over_time included) the statement returns the same matrix for every physical order of the `samples` table
+    (`Reordered`: the same rows, each once, no two rows sharing a timestamp; same index and series tables): nothing in the plan
+    depends on the order rows are stored or read in. (`plan_metric_correct_unwrap` says which matrix.) -/
+theorem plan_metric_unwrap_any_row_order (o : Oracles) (c : MCtx) (hn : c.namesOk) (d d' : LokiDb) (q : MetricQuery)
+    (hsup : supportedU q = true) (h : Reordered d d') :
+    (evalSelA o (d.toDbM c) (planMetric c q)).map normRow = (evalSelA o (d'.toDbM c) (planMetric c q)).map normRow :=
+  planMetric_unwrap_reordered o c hn d d' q hsup h
+
+/-- the same on the labelled path (also `quantile_over_time`: the values reach the oracle in timestamp order) -/
+theorem plan_metric_ext_any_row_order (o : Oracles) (c : MCtx) (hn : c.namesOk) (d d' : LokiDb) (q : MetricQueryX)
+    (hsup : supportedX q = true) (h : Reordered d d') :
+    (evalSelA o (d.toDbM c) (planMetricX c q)).map normRow = (evalSelA o (d'.toDbM c) (planMetricX c q)).map normRow :=
+  planMetricX_reordered o c hn d d' q hsup h
+
+/-- the full statement: `first_over_time` / `last_over_time` of a group is a function of the group's members (whatever
+    the order they are read in) -/
+def first_last_any_order_full : Prop :=
+  ∀ (l l' : List (Int × Rat)), (∀ x, x ∈ l ↔ x ∈ l') → firstBy l = firstBy l' ∧ lastBy l = lastBy l'
+
+/-- what holds (partial): it is, when the timestamps of the group are pairwise distinct -/
+theorem first_last_any_order_partial (l l' : List (Int × Rat)) (hmem : ∀ x, x ∈ l ↔ x ∈ l')
+    (hdist : ∀ p ∈ l, ∀ q ∈ l, p.1 = q.1 → p = q) : firstBy l = firstBy l' ∧ lastBy l = lastBy l' :=
+  ⟨firstBy_same_members l l' hmem hdist, lastBy_same_members l l' hmem hdist⟩
+
+/-- **finding C08/first-last-tie-follows-row-order.** Among entries of one series with the same timestamp, `argMin`/`argMax`
+    over the timestamp return the value of whichever row is read first: two rows `(ts 5, value 1)`, `(ts 5, value 2)` give
+    `first_over_time = 1` in one order and `2` in the other (the definition read in table order does the same; ClickHouse
+    leaves the choice open). The samples table stores no tie-breaker (Loki keeps ingestion order). -/
+theorem first_last_any_order_counterexample : ¬ first_last_any_order_full := by
+  intro h
+  have := (h [(5, 1), (5, 2)] [(5, 2), (5, 1)] (by intro x; simp [or_comm])).1
+  revert this
+  decide +kernel
+
+/-- the SQL side of the same witness (`Sql.SemAgg`'s `argMin`: first row with the least key) -/
+theorem first_over_time_tie_sql :
+    argMinAgg [(.rat 1, .int 5), (.rat 2, .int 5)] = .rat 1 ∧ argMinAgg [(.rat 2, .int 5), (.rat 1, .int 5)] = .rat 2 :=
+  ⟨first_over_time_tie_follows_row_order.2.2.1, first_over_time_tie_follows_row_order.2.2.2⟩
 
 /-! ## non-vacuity -/
 example : LraRows [[("_string", .str [97, 98])]] [⟨1, 5, [97, 98], 1⟩] := by unfold LraRows; decide
@@ -462,18 +618,35 @@ example : takesShortcut (.range ⟨.lra .rate, ⟨[], []⟩, 60000000000, none, 
 example : takesShortcut (.range ⟨.lra .rate, ⟨[], []⟩, 20000000000, none, none, none⟩) = false := by decide
 example : takesShortcut (.range ⟨.lra .rate, ⟨[], [.line ⟨.notContains, [], none⟩]⟩, 60000000000, none, none, none⟩) = false := by decide
 
+example : Reordered ⟨[], [], [⟨1, 1, [], 1⟩, ⟨1, 2, [], 1⟩]⟩ ⟨[], [], [⟨1, 2, [], 1⟩, ⟨1, 1, [], 1⟩]⟩ := by
+  refine ⟨rfl, rfl, by decide, by decide, ?_, ?_⟩
+  · intro s; simp [or_comm]
+  · intro s hs s' hs' h
+    simp only [List.mem_cons, List.not_mem_nil, or_false] at hs hs'
+    rcases hs with rfl | rfl <;> rcases hs' with rfl | rfl <;> simp_all
+
 -- the plan-level class is inhabited: sum by (a) (rate({…}[1m])) > 1 under topk, shortcut and not
 example : supported (.topk ⟨true, 2, .agg ⟨.sum, some ⟨true, ["a"]⟩, ⟨.lra .rate, ⟨[], []⟩, 60000000000, none, none, none⟩, none,
     some ⟨.gt, ⟨1, []⟩⟩⟩, none⟩) = true := by decide
 example : supported (.agg ⟨.count, none, ⟨.lra .bytesOverTime, ⟨[], []⟩, 7000000000, none, none, none⟩, some ⟨false, ["x"]⟩, none⟩) = true := by decide
-example : supported (.agg ⟨.sum, none, ⟨.lra .rate, ⟨[], []⟩, 5000000000, none, none, none⟩, none, none⟩) = false := by decide
+example : supported (.agg ⟨.sum, none, ⟨.lra .rate, ⟨[], []⟩, 5000000000, none, none, none⟩, none, none⟩) = true := by decide
 example : supportedU (.agg ⟨.max, some ⟨true, ["a"]⟩, ⟨.unwrap .firstOT "x", ⟨[], []⟩, 10000000000, none, some ⟨false, ["b"]⟩, none⟩, none, none⟩) = true := by decide
-example : supportedU (.range ⟨.unwrap .stddevOT "x", ⟨[], []⟩, 10000000000, none, none, none⟩) = false := by decide
+example : supportedU (.range ⟨.unwrap .stddevOT "x", ⟨[], []⟩, 10000000000, none, none, none⟩) = true := by decide
+example : supported (.agg ⟨.stddev, some ⟨true, ["a"]⟩, ⟨.lra .rate, ⟨[], []⟩, 5000000000, none, none, none⟩, none, none⟩) = true := by decide
 example (c : Ctx) : sortBy (tsLe c) ([] : List Sample) = [] := rfl
 example (o : Oracles) (q : MetricQuery) : ShortcutOk o ⟨[], [], []⟩ q := ⟨by simp, by simp⟩
 example (lo hi : Int) : SameInside ⟨[], [], [⟨1, lo - 1, [], 1⟩]⟩ ⟨[], [], []⟩ lo hi := by
   refine ⟨rfl, rfl, ?_⟩
   simp
   omega
+
+
+-- the labelled class is inhabited: rate over `| json x="a" | x="1"`, sum by (x) of it under topk; quantile over unwrap
+example : supportedX ⟨⟨.lra .rate, ⟨[], []⟩, [.ch (.json [([120], [.key [97]])]), .fl (.label (.str "x" .eq [49]))], 5000000000,
+    none, none, none⟩, none, none⟩ = true := by decide
+example : supportedX ⟨⟨.unwrap .sumOT "x", ⟨[], []⟩, [.ch (.drop [([97], [])])], 5000000000, none, some ⟨true, ["a"]⟩, none⟩,
+    some ⟨.sum, some ⟨true, ["x"]⟩, none, none⟩, some ⟨true, 2, none⟩⟩ = true := by decide
+example : supportedX ⟨⟨.quantile ⟨0, [5]⟩ "x", ⟨[], []⟩, [], 5000000000, none, none, none⟩, none, none⟩ = true := by decide
+example : supportedX ⟨⟨.lra .rate, ⟨[], []⟩, [], 5000000000, none, none, none⟩, none, none⟩ = false := by decide
 
 end Qryn.C08
